@@ -1,5 +1,6 @@
 import UxVerif.Model.Proto
 import UxVerif.Model.Aggregate
+import UxVerif.Model.Edges
 
 namespace UxVerif.Driver.C17
 open UxVerif UxVerif.Proto UxVerif.Aggregate
@@ -29,6 +30,26 @@ def outcomeCode : Outcome → String
   | .toFace => "toFace" | .toEdge => "toEdge" | .valueError => "ValueError"
   | .notImplemented => "NotImplementedError"
 
+/-! exact rational protocol: a value is `num den`; `den = 0` marks a non-finite output -/
+def ratP : P Rat := do let a ← int; let b ← nat; if b = 0 then failure else pure (mkRat a b)
+def oratP : P (Option Rat) := do let a ← int; let b ← nat; pure (if b = 0 then none else some (mkRat a b))
+def dataQ (d : List Rat) : Int → Rat := fun i => if i < 0 then 0 else d.getD i.toNat 0
+
+def redCode : Nat → Option Red
+  | 0 => some .mean | 1 => some .max | 2 => some .min | 3 => some .prod | 4 => some .sum
+  | 5 => some .std | 6 => some .var | 7 => some .median | 8 => some .all | 9 => some .any
+  | _ => none
+
+def encORat (l : List (Option Rat)) : String :=
+  " ".intercalate ((toString l.length) :: l.map (fun o => match o with
+    | none => "0 0" | some v => s!"{v.num} {v.den}"))
+
+/-- index of the first rejected element (for the report), `-1` if none -/
+def firstBad (op : Red) (ddof : Nat) (rows : List (List Rat)) (out : List (Option Rat)) : Int :=
+  match ((rows.zip out).zipIdx.find? (fun ryi => !(judgeRows op ddof [ryi.1.1] [ryi.1.2]))) with
+  | some ryi => Int.ofNat ryi.2
+  | none => -1
+
 def handle (cmd : String) (args : List Int) : Option String :=
   match cmd with
   | "C17.parts" => do
@@ -50,6 +71,53 @@ def handle (cmd : String) (args : List Int) : Option String :=
   | "C17.edge" => do
       let (op, E, d) ← run (do let op ← nat; let E ← pairs; let d ← ints; pure (op, E, d)) args
       pure (encInts (aggEdge (redOf op) (dataOf d) E))
+  | "C17.qface" => do
+      -- verdict on a node→face result: the rows are the values on each face's real corners;
+      -- plus the model's partition loop on the real partition arrays
+      let (opc, ddof, t, p, d, out) ← run (do
+        let op ← nat; let dd ← nat; let t ← rows; let p ← partsP; let d ← list ratP; let o ← list oratP
+        pure (op, dd, t, p, d, o)) args
+      let op ← redCode opc
+      let ref := cornerRows (dataQ d) t
+      let loop := loopRows (dataQ d) t p
+      let verdict := judgeRows op ddof ref out
+      let same := decide (loop = ref.map some)
+      let vals := ref.map (core op ddof)
+      pure s!"{encBool verdict} {encBool same} {firstBad op ddof ref out} {encORat vals}"
+  | "C17.qref" => do
+      let (opc, ddof, t, d, out) ← run (do
+        let op ← nat; let dd ← nat; let t ← rows; let d ← list ratP; let o ← list oratP
+        pure (op, dd, t, d, o)) args
+      let op ← redCode opc
+      let ref := cornerRows (dataQ d) t
+      pure s!"{encBool (judgeRows op ddof ref out)} {firstBad op ddof ref out} {encORat (ref.map (core op ddof))}"
+  | "C17.qedge" => do
+      let (opc, ddof, E, d, out) ← run (do
+        let op ← nat; let dd ← nat; let E ← pairs; let d ← list ratP; let o ← list oratP
+        pure (op, dd, E, d, o)) args
+      let op ← redCode opc
+      let ref := edgeRows (dataQ d) E
+      pure s!"{encBool (judgeRows op ddof ref out)} {firstBad op ddof ref out} {encORat (ref.map (core op ddof))}"
+  | "C17.qrow" => do
+      -- one row: exact value, allowance and verdict (used to cross-check the model of the
+      -- reductions against NumPy applied to the same row)
+      let (opc, ddof, row, y) ← run (do
+        let op ← nat; let dd ← nat; let r ← list ratP; let y ← oratP; pure (op, dd, r, y)) args
+      let op ← redCode opc
+      let acc := match y with | some y => accepts op ddof row y | none => false
+      let tl := tol op ddof row
+      pure s!"{encBool acc} {encORat [core op ddof row]} {tl.num} {tl.den}"
+  | "C17.subtable" => do
+      -- the sub-grid table the model derives: selected parent rows, nodes renumbered
+      let (t, idx, ren) ← run (do let t ← rows; let i ← nats; let r ← ints; pure (t, i, r)) args
+      let renF : Int → Int := fun x => if x < 0 then FILL else ren.getD x.toNat FILL
+      pure (encRows (subTable t idx renF))
+  | "C17.hyps" => do
+      -- the hypotheses of the end-to-end theorems on the REAL tables: the face table is in standard
+      -- form (`StdForm`), every edge joins two real nodes that are consecutive corners of some
+      -- face (C02's `EdgesSound`)
+      let (n, w, t, E) ← run (do let n ← nat; let w ← nat; let t ← rows; let E ← pairs; pure (n, w, t, E)) args
+      pure s!"{encBool (decide (Edges.StdForm n w t))} {encBool (decide (Edges.EdgesSound t E))}"
   | "C17.dispatch" => do
       let (c, d) ← run (do let c ← nat; let d ← nat; pure (c, d)) args
       pure (outcomeCode (dispatch (centreOf c) (destOf d)))
